@@ -302,6 +302,7 @@ type cobs struct {
 	hasStatus bool
 	code      int
 	smsg      string
+	ctype     string // Content-Type of an HTTP-transcoded response (what the replies were decoded as)
 }
 
 // parseJSONStream splits a body into concatenated JSON values and decodes
